@@ -129,6 +129,7 @@ type bmc struct {
 	constLoad map[*bNode]bool
 	constVal  map[string]int64
 	starts    map[*bNode]bool
+	foot      map[*bNode]map[string]bool // partial-order reduction: objects a step starting here may touch
 }
 
 type bState struct {
@@ -199,7 +200,7 @@ func isVisible(kind string) bool {
 }
 
 // RunBMC builds and solves the model.  traces[i] = explored paths of thread i.
-func RunBMC(meta *Tracer, traces [][][]TraceEvent, solverBin string, timeoutMs int, wantRace bool) *BMCResult {
+func RunBMC(meta *Tracer, traces [][][]TraceEvent, solverBin string, timeoutMs int, wantRace bool, hunt bool) *BMCResult {
 	res := &BMCResult{}
 	b := &bmc{meta: meta, slots: map[string]int{}}
 	for _, paths := range traces {
@@ -292,6 +293,16 @@ func RunBMC(meta *Tracer, traces [][][]TraceEvent, solverBin string, timeoutMs i
 			}
 		}
 	}
+	usePOR := os.Getenv("VF_BMC_NOPOR") == ""
+	ctEvery := 1
+	fmt.Sscan(os.Getenv("VF_BMC_CT"), &ctEvery)
+	if ctEvery < 1 {
+		ctEvery = 1
+	}
+	if usePOR {
+		b.footprints(wantRace)
+		res.Notes = append(res.Notes, "partial-order reduction: only schedules in which no step directly follows an independent step of a higher-numbered thread")
+	}
 	K := 0
 	minK := 0
 	for _, th := range b.threads {
@@ -300,6 +311,15 @@ func RunBMC(meta *Tracer, traces [][][]TraceEvent, solverBin string, timeoutMs i
 	}
 	_ = minK
 	res.Steps = K
+	if os.Getenv("VF_BMC_CT") == "" {
+		// completeness-threshold queries pay off only when the static bound is far above what executions need
+		if K-minK <= 14 {
+			ctEvery = 1 << 20
+		} else {
+			ctEvery = 3
+		}
+	}
+	res.Notes = append(res.Notes, fmt.Sprintf("static step bound %d, shortest complete execution %d steps", K, minK))
 
 	// initial state
 	st := &bState{reg: map[string]*smt.Term{}, badKind: map[string]*smt.Term{}}
@@ -359,7 +379,7 @@ func RunBMC(meta *Tracer, traces [][][]TraceEvent, solverBin string, timeoutMs i
 		}
 	}
 
-	s, err := smt.Start(solverBin, timeoutMs)
+	s, err := smt.StartLogic(solverBin, timeoutMs, "QF_BV")
 	if err != nil {
 		res.Verdict, res.Detail = "unknown", err.Error()
 		return res
@@ -382,6 +402,8 @@ func RunBMC(meta *Tracer, traces [][][]TraceEvent, solverBin string, timeoutMs i
 		dbg   []*smt.Term
 	}
 	var steps []stepInfo
+	var qlog []string
+	defer func() { res.Notes = append(res.Notes, "query times: "+strings.Join(qlog, " ")) }()
 	raceAny := smt.False
 	nTrans := 0
 	complete := false
@@ -396,8 +418,22 @@ func RunBMC(meta *Tracer, traces [][][]TraceEvent, solverBin string, timeoutMs i
 		}
 		steps = append(steps, stepInfo{sched: sched, pcs: append([]*smt.Term(nil), st.pc...), dbg: dbg})
 		assert(smt.ULt(sched, b.c(T)))
+		if usePOR && t > 0 {
+			// canonical schedules only: a step of thread j directly after an independent step of a thread
+			// i > j is forbidden (the swapped schedule is equivalent and lexicographically smaller)
+			prev := steps[t-1]
+			for i := 1; i < T; i++ {
+				for j := 0; j < i; j++ {
+					ind := b.indepAt(i, j, prev.pcs)
+					if ind.IsConst() && ind.C == 0 {
+						continue
+					}
+					assert(smt.Not(smt.And(smt.And(smt.Eq(prev.sched, b.c(i)), smt.Eq(sched, b.c(j))), ind)))
+				}
+			}
+		}
 		next, anyEnabled := b.step(st, sched, t, &nTrans)
-		if t >= 3 && t >= minK {
+		if t >= 3 && t >= minK && (t-minK)%ctEvery == 0 {
 			// completeness threshold: if no execution can still move at time t, the unrolling is complete
 			s.Send("(push 1)\n")
 			r := b.pr.Ref(anyEnabled)
@@ -407,6 +443,7 @@ func RunBMC(meta *Tracer, traces [][][]TraceEvent, solverBin string, timeoutMs i
 			out := s.Check()
 			res.Queries++
 			res.SolverS += time.Since(t0).Seconds()
+			qlog = append(qlog, fmt.Sprintf("complete@%d=%.1fs", t, time.Since(t0).Seconds()))
 			s.Send("(pop 1)\n")
 			if out == smt.Unsat {
 				steps = steps[:len(steps)-1]
@@ -414,7 +451,7 @@ func RunBMC(meta *Tracer, traces [][][]TraceEvent, solverBin string, timeoutMs i
 				complete = true
 				break
 			}
-			if out == smt.Unknown {
+			if out == smt.Unknown && !hunt {
 				res.Verdict, res.Detail = "unknown", fmt.Sprintf("completeness query at depth %d: %s", t, s.LastErr)
 				return res
 			}
@@ -444,6 +481,7 @@ func RunBMC(meta *Tracer, traces [][][]TraceEvent, solverBin string, timeoutMs i
 		out := s.Check()
 		res.Queries++
 		res.SolverS += time.Since(t0).Seconds()
+		qlog = append(qlog, fmt.Sprintf("%s=%.1fs", name, time.Since(t0).Seconds()))
 		var sch []int
 		if out == smt.Sat {
 			res.TraceText = nil
@@ -498,6 +536,7 @@ func RunBMC(meta *Tracer, traces [][][]TraceEvent, solverBin string, timeoutMs i
 		return out, sch
 	}
 
+	var undecided []string
 	// 1. safety
 	kinds := make([]string, 0, len(st.badKind))
 	for k := range st.badKind {
@@ -521,8 +560,11 @@ func RunBMC(meta *Tracer, traces [][][]TraceEvent, solverBin string, timeoutMs i
 		}
 		return res
 	case smt.Unknown:
-		res.Verdict, res.Detail = "unknown", "safety query: "+s.LastErr
-		return res
+		if !hunt {
+			res.Verdict, res.Detail = "unknown", "safety query: "+s.LastErr
+			return res
+		}
+		undecided = append(undecided, "safety")
 	}
 	// 2. deadlock / lost wake-up: after K steps some thread has not finished
 	out, sch = query("deadlock", smt.Not(allDone))
@@ -531,8 +573,11 @@ func RunBMC(meta *Tracer, traces [][][]TraceEvent, solverBin string, timeoutMs i
 		res.Verdict, res.Kind, res.Schedule = "violation", "deadlock", sch
 		return res
 	case smt.Unknown:
-		res.Verdict, res.Detail = "unknown", "deadlock query: "+s.LastErr
-		return res
+		if !hunt {
+			res.Verdict, res.Detail = "unknown", "deadlock query: "+s.LastErr
+			return res
+		}
+		undecided = append(undecided, "deadlock")
 	}
 	// 3. data race
 	if wantRace {
@@ -542,9 +587,17 @@ func RunBMC(meta *Tracer, traces [][][]TraceEvent, solverBin string, timeoutMs i
 			res.Verdict, res.Kind, res.Schedule = "violation", "race", sch
 			return res
 		case smt.Unknown:
-			res.Verdict, res.Detail = "unknown", "race query: "+s.LastErr
-			return res
+			if !hunt {
+				res.Verdict, res.Detail = "unknown", "race query: "+s.LastErr
+				return res
+			}
+			undecided = append(undecided, "race")
 		}
+	}
+	if len(undecided) > 0 {
+		// search mode: no violating execution was found within the time limit, nothing is claimed
+		res.Verdict, res.Detail = "undecided", "no verdict within the time limit for: "+strings.Join(undecided, ", ")
+		return res
 	}
 	res.Verdict = "safe"
 	return res
@@ -1312,7 +1365,7 @@ func (b *bmc) raceAt(st *bState) *smt.Term {
 }
 
 // ModelCheck extracts the event trees of every thread of a traced harness and runs the BMC.
-func ModelCheck(pr *Program, pkgPath, harness string, params []int, solverBin string, timeoutMs int, wantRace bool, maxEvents int) *BMCResult {
+func ModelCheck(pr *Program, pkgPath, harness string, params []int, solverBin string, timeoutMs int, wantRace bool, maxEvents int, hunt bool) *BMCResult {
 	if maxEvents == 0 {
 		maxEvents = 400
 	}
@@ -1340,5 +1393,186 @@ func ModelCheck(pr *Program, pkgPath, harness string, params []int, solverBin st
 		}
 		traces = append(traces, r.Traces)
 	}
-	return RunBMC(meta, traces, solverBin, timeoutMs, wantRace)
+	return RunBMC(meta, traces, solverBin, timeoutMs, wantRace, hunt)
+}
+
+// ---- partial-order reduction by canonical schedules ------------------------------------------
+//
+// Two steps of different threads are independent when the sets of objects their chains may touch
+// (over every branch of the chain) are disjoint; then they commute and neither enables or disables
+// the other.  Every execution is equivalent to the lexicographically least one of its
+// Mazurkiewicz trace, in which no step of thread j directly follows an independent step of a thread
+// i > j, so asserting that for every adjacent pair keeps one representative of every trace.
+// Equivalent executions reach the same final state and raise the same assertion failures.  Time
+// stamps (begin/end) share the token CLK, so steps that take one never commute.  waitall, and -
+// for the race query, which inspects intermediate states - every unprotected access that takes part
+// in a candidate race, are dependent on everything.
+
+func (b *bmc) footprints(wantRace bool) {
+	b.foot = map[*bNode]map[string]bool{}
+	resolve := func(t *smt.Term) (uint64, bool) {
+		if t == nil {
+			return 0, false
+		}
+		if t.IsConst() {
+			return t.C, true
+		}
+		if t.Op == "var" {
+			if v, ok := b.constVal[t.Name]; ok {
+				return uint64(v), true
+			}
+		}
+		return 0, false
+	}
+	tok := func(cls string, obj *smt.Term) string {
+		if id, ok := resolve(obj); ok {
+			return fmt.Sprintf("%s%d", cls, id)
+		}
+		return cls + "*"
+	}
+	racy := map[*bNode]bool{}
+	if wantRace {
+		type acc struct {
+			th    int
+			n     *bNode
+			class string
+			write bool
+		}
+		var accs []acc
+		for i, th := range b.threads {
+			for _, n := range th.nodes {
+				switch n.ev.Kind {
+				case "load":
+					accs = append(accs, acc{i, n, "cell", false})
+				case "store":
+					accs = append(accs, acc{i, n, "cell", true})
+				case "seqappend", "seqremove", "seqclear":
+					accs = append(accs, acc{i, n, "seq", true})
+				case "seqlen", "seqsnap", "seqget":
+					accs = append(accs, acc{i, n, "seq", false})
+				}
+			}
+		}
+		for x := 0; x < len(accs); x++ {
+			for y := x + 1; y < len(accs); y++ {
+				a, c := accs[x], accs[y]
+				if a.th == c.th || a.class != c.class || (!a.write && !c.write) {
+					continue
+				}
+				common := false
+				for _, la := range a.n.ev.Locks {
+					for _, lc := range c.n.ev.Locks {
+						if la == lc {
+							common = true
+						}
+					}
+				}
+				if !common {
+					racy[a.n], racy[c.n] = true, true
+				}
+			}
+		}
+	}
+	tokens := func(n *bNode, f map[string]bool) {
+		e := n.ev
+		if racy[n] {
+			f["ALL"] = true
+		}
+		switch e.Kind {
+		case "lock", "unlock":
+			f[tok("M", e.Obj)] = true
+		case "send", "recv", "close", "len":
+			f[tok("C", e.Obj)] = true
+		case "makechan":
+			f["C*"] = true
+		case "load":
+			if !b.constLoad[n] && !(b.fuse[n] && len(e.Locks) == 0) {
+				f[tok("X", e.Obj)] = true
+			}
+		case "store":
+			f[tok("X", e.Obj)] = true
+		case "seqnew":
+			f["S*"] = true
+		case "seqappend", "seqremove", "seqget", "seqclear", "seqlen", "seqsnap":
+			f[tok("S", e.Obj)] = true
+		case "wgadd", "wgdone", "wgwait":
+			f[tok("W", e.Obj)] = true
+		case "begin", "end":
+			f["CLK"] = true
+		case "put", "get":
+			f["P"+e.Label] = true
+		case "waitall":
+			f["ALL"] = true
+		case "assert", "panic", "cutoff", "pruned", "done":
+		default:
+			f["ALL"] = true
+		}
+	}
+	for _, th := range b.threads {
+		for _, n := range th.nodes {
+			if !b.starts[n] {
+				continue
+			}
+			f := map[string]bool{}
+			var chain func(m *bNode, inPrefix bool)
+			chain = func(m *bNode, inPrefix bool) {
+				tokens(m, f)
+				nv := inPrefix && !b.vis(m)
+				for _, c := range m.children {
+					if b.fuse[c.to] || nv {
+						chain(c.to, nv)
+					}
+				}
+			}
+			chain(n, !b.vis(n) && b.firstVisible(n) != nil)
+			b.foot[n] = f
+		}
+	}
+}
+
+func footDependent(f, g map[string]bool) bool {
+	if f["ALL"] || g["ALL"] {
+		return true
+	}
+	for k := range f {
+		if g[k] {
+			return true
+		}
+		if len(k) >= 2 {
+			cls := k[:1]
+			if cls == "M" || cls == "C" || cls == "X" || cls == "S" || cls == "W" {
+				if k[1:] == "*" {
+					for h := range g {
+						if h[:1] == cls {
+							return true
+						}
+					}
+				} else if g[cls+"*"] {
+					return true
+				}
+			}
+		}
+	}
+	return false
+}
+
+// indepAt: threads i and j stand at start nodes whose steps are independent.
+func (b *bmc) indepAt(i, j int, pcs []*smt.Term) *smt.Term {
+	r := smt.False
+	for _, ni := range b.threads[i].nodes {
+		if !b.starts[ni] {
+			continue
+		}
+		inner := smt.False
+		for _, nj := range b.threads[j].nodes {
+			if !b.starts[nj] {
+				continue
+			}
+			if !footDependent(b.foot[ni], b.foot[nj]) {
+				inner = smt.Or(inner, smt.Eq(pcs[j], b.pcc(nj.id)))
+			}
+		}
+		r = smt.Or(r, smt.And(smt.Eq(pcs[i], b.pcc(ni.id)), inner))
+	}
+	return r
 }
